@@ -198,6 +198,10 @@ def check_case(case, ctx):
             effective += 1
         # capture at a finite time, CPU vs GPU
         T = rr.choice([0.0, 10.25, 33.0, 100.0, 200.5])
+        tt = np.unique(rc[(rc > W.TMIN) & (rc < W.TMAX)])
+        if len(tt) and rr.random() < 0.6:
+            T = float(rr.choice(tt.tolist()))          # exactly at a transition time of some waveform: both paths must agree on inclusive / exclusive
+            ctx.count('capture_at_transition_time')
         a1 = run(time=T)
         a2 = run(cls='cuda', time=T, reuse=True)
         if not eq('capture_time', np.asarray(a2.s)[3:], np.asarray(a1.s)[3:], f'capture at time {T} (CPU plain vs GPU path with reuse)'):
